@@ -58,6 +58,15 @@ class Scaler(Transformer):
         if not isinstance(X, (xr.DataArray, xr.Dataset)):
             raise TypeError(f"{name} must be an xarray DataArray or Dataset")
 
+    def _verify_dims(self, X):
+        """Check that scaling will not broadcast X to dimensions it does not have."""
+        fitted = (self.mean_, self.std_, self.coslat_weights_, self.weights_)
+        missing = {dim for param in fitted for dim in param.dims} - set(X.dims)
+        if missing:
+            raise ValueError(
+                f"Cannot transform data. Dimensions {sorted(map(str, missing))} are missing."
+            )
+
     def _process_weights(self, X: DataVarBound, weights) -> DataVarBound:
         if weights is None:
             wghts: DataVarBound = feature_ones_like(X, self.feature_dims)
@@ -140,6 +149,7 @@ class Scaler(Transformer):
 
         """
         self._verify_input(X, "X")
+        self._verify_dims(X)
 
         params = self.get_params()
 
